@@ -152,8 +152,36 @@ def judge(ck: Check, camp, case: dict) -> None:
     before = len(ck.failures) + sum(ck.known_hits.values())
     c01.run_case(ck, camp, {k: v for k, v in case.items() if k != "formatters"})
     if len(ck.failures) + sum(ck.known_hits.values()) == before:
-        ck.fail({**base, "mechanism": "error_on_supported_input", "error": res.error_type, "formatters": "default"}, case,
-                f"well-formed input inside the documented feature set failed with the default formatters: {res.error_type}: {res.error_msg}")
+        ck.fail({**base, "mechanism": "error_on_supported_input", "error": res.error_type, "formatters": "default", "trigger": formatter_trigger(case)}, case,
+                f"well-formed input inside the documented feature set failed with the default formatters (the module written with the formatters off "
+                f"parses): {res.error_type}: {res.error_msg}")
+
+
+LINE_BOUNDARY = "\x85\u2028\u2029"  # str.splitlines boundaries that are neither ASCII control characters nor escaped by pattern_literal
+
+
+def map_patterns(doc, fn):
+    """copy of the document with `fn` applied to every `pattern` value and every patternProperties key"""
+    if isinstance(doc, dict):
+        return {k: (fn(v) if k == "pattern" and isinstance(v, str) else {fn(k2): map_patterns(v2, fn) for k2, v2 in v.items()} if k == "patternProperties" and isinstance(v, dict)
+                    else map_patterns(v, fn)) for k, v in doc.items()}
+    if isinstance(doc, list):
+        return [map_patterns(v, fn) for v in doc]
+    return doc
+
+
+def formatter_trigger(case: dict) -> str:
+    """attribution of a failure that only the default formatters show (for the recorded finding C01-pattern-line-boundary): the
+    patterns hold a non-ASCII line boundary (U+0085 / U+2028 / U+2029) AND the same case with those characters replaced generates"""
+    from . import c01
+
+    if not any(c in p for p in c01.all_strings(case["doc"], "pattern") for c in LINE_BOUNDARY):
+        return "other"
+    d2 = map_patterns(case["doc"], lambda p: "".join("x" if c in LINE_BOUNDARY else c for c in p))
+    r = e2e.run_generate(shape.doc_text(d2), input_file_type="jsonschema", model=case["model"], opts=case["opts"], formatters="default", timeout=15)
+    if r.ok and all(e2e.parses(c) is None for p, c in r.files.items() if p.endswith(".py")):
+        return "pattern_non_ascii_line_boundary"
+    return "other"
 
 
 def cases_for(pattern: str, rng, full: bool) -> list[dict]:
@@ -237,6 +265,7 @@ def campaign_patlit(ck: Check, n: int) -> None:
         reqs.append(f"patlit.token {hx(lit + ')')}")
     replies = ck.driver.run(reqs)
     bad: list[str] = []
+    bad_token: list[str] = []
     for i, (s, lit) in enumerate(zip(cases, lits)):
         camp.evaluations += 1
         text, tok = replies[2 * i], replies[2 * i + 1]
@@ -246,42 +275,65 @@ def campaign_patlit(ck: Check, n: int) -> None:
             camp.hit("pattern:" + t)
         camp.distinct.add(s)
         read = [unhx(x) for x in tok.split(" ")[1:3]] if tok.startswith("ok ") else tok
-        if model != lit:
-            ck.disagree(camp, {"pattern": s}, model, lit)
-            bad.append(s)
-        elif read != [s, ")"]:
-            # the model of the text agrees with the code, but the text is not one token with the pattern as its value
+        if read != [s, ")"] and not lit.startswith("raise "):
+            # the text the code writes is not one token with the pattern as its value: a counterexample to the statement of
+            # pattern_literal_one_token on the real function (first in the failing-input search)
             ck.disagree(camp, {"pattern": s, "literal": lit}, "one string token whose value is the pattern, `)` follows", read)
+            bad_token.append(s)
+        elif model != lit:
+            ck.disagree(camp, {"pattern": s}, model, lit)
             bad.append(s)
         elif len(camp.samples) < 3 and len(s) > 3 and SQ in s:
             camp.samples.append({"pattern": s, "literal": lit})
-    ck.notes["patlit_disagreeing"] = bad[:40]
+    ck.notes["patlit_disagreeing"] = sorted(bad_token, key=len)[:30] + sorted(bad, key=len)[:10]
     camp.wall_s = time.time() - t0
 
 
 # ---------------------------------------------------------------- failing-input search
+RELEVANT = ("pattern", "Pattern", "patlit", "Escape", "EscTables", "C10", "Repr", "Lex", "literal", "raw_", "crashed")
+
+
+def relevant(ck: Check) -> bool:
+    """does what broke concern how a string literal is written (an escape / literal / pattern obligation or correspondence)?"""
+    if ck.notes.get("patlit_disagreeing"):
+        return True
+    texts = [f"{k} {v}" for k, v in ck.broken.items()] + [d.campaign for d in ck.disagreements]
+    return any(w in t for t in texts for w in RELEVANT)
+
+
 def search(ck: Check) -> None:
-    """After a broken obligation / correspondence: (1) every pattern on which the real `pattern_literal` and the model disagreed
-    (or whose real literal the lexer model does not read back), shortest first, in every cell of the kind × field_constraints ×
-    formatters × position matrix; (2) the whole family, every stratum several times, every cell. Judged by C01's oracle on the
-    real generate(); stops at the first failure."""
+    """After a broken obligation / correspondence that concerns literals: (1) every pattern on which the real `pattern_literal`
+    and the model disagreed (or whose real literal the lexer model does not read back), shortest first, in every cell of the
+    kind × field_constraints × formatters × position matrix; (2) the whole family, every stratum several times, the whole matrix
+    for the quote / backslash strata. Judged by C01's oracle on the real generate(); stops at the first failure."""
+    if relevant(ck):
+        _search(ck, 3 if ck.tier == "quick" else 12, True)
+
+
+def search_last(ck: Check) -> None:
+    """the last hook: whatever broke, one round over the family (a few seconds) when nothing else found a failing input"""
+    if not relevant(ck):
+        _search(ck, 1, False)
+
+
+def _search(ck: Check, rounds: int, matrix: bool) -> None:
     camp = ck.campaign("search: regex patterns of the quote / backslash / newline / brace family embedded into complete documents, "
                        "pydantic v1/v2 × field_constraints × formatters × positions")
     t0 = time.time()
     rng = ck.rng.fork("c01-pattern-search")
-    for p in sorted(dict.fromkeys(ck.notes.get("patlit_disagreeing") or []), key=len)[:12]:
+    for p in list(dict.fromkeys(ck.notes.get("patlit_disagreeing") or []))[:14]:
         camp.hit("source:disagreement")
         for c in cases_for(p, rng, True):
             judge(ck, camp, c)
             if ck.failures:
                 camp.wall_s = time.time() - t0
                 return
-    for rnd in range(3 if ck.tier == "quick" else 12):
+    for rnd in range(rounds):
         for classes, tail in strata():
             p = build(rng, classes, tail)
             camp.hit("source:family")
             # the whole matrix for the quote / backslash strata (how a literal is delimited), the deciding cells for the rest
-            for c in cases_for(p, rng, rnd == 0 and tail is None and set(classes) <= QUOTE_CLASSES):
+            for c in cases_for(p, rng, matrix and rnd == 0 and tail is None and set(classes) <= QUOTE_CLASSES):
                 judge(ck, camp, c)
                 if ck.failures:
                     camp.wall_s = time.time() - t0
